@@ -11,7 +11,7 @@ from harness.props import sched_common as sc
 ID = 'C14'
 PROPS_FILE = 'Props/Props_C14.v'
 EXTRA_TARGETS = ['Sched/Case.vo', 'Props/Props_Glue.vo']   # Glue: WFin holds of every reachable graph state
-CONST_PARTS = ('sched',)
+CONST_PARTS = ('sched', 'srcfill')
 FAIL = sc.BITS['crash']
 MISMATCH = sc.BITS['outcome'] | sc.BITS['model_oracle']
 
